@@ -17,6 +17,7 @@ ASSUMPTIONS = ['`now` is a positive monotonic reading; what follows a raise is u
                'a window that is exactly max_restart_freq old counts as expired']
 JOBS = 14
 SPEC_TIMEOUT = 900
+CONFIRM_ALONE = ('pool_hung_at_startup_burst', 'restart_limiter_never_reacted')
 FLOORS = {
     'quick': {'l0:limiter_steps': 100000, 'l0:limiter_raises': 3000, 'sim:limiter_raise_confirmed': 60,
               'sim:restarts_admitted': 1000, 'sim:supervise_with_exits': 1200},
